@@ -43,6 +43,29 @@ CLAIMED = {
         note=TB + "No axioms. Name-location theorems over the whole pipeline are not proved yet (checked by the oracle on Go output).",
         tech="Rocq proof (result laws) + error-projection correspondence + location oracle",
         ref="DESIGN.md 5/C17"),
+    "C04": dict(
+        text="Coq theorems: (generic) a pool client whose fresh run is disciplined - no tenure redeemed twice, no access after the redeem, "
+             "every field written before it is read - issues the same commands, reads and outputs the same values on a real pool, for "
+             "every initial pool content, every borrow oracle and every length, and the pool never holds an object twice nor a borrowed "
+             "one (simulation by induction over steps); the discipline is necessary (witness); (protocol) in the validators' redeem "
+             "protocol every validator object of every tree is redeemed exactly once and untouched between use and redeem; (static) the "
+             "table of struct fields vs constructor assignments regenerated from /repo by go/ast is complete. Tie: histories of calls "
+             "through the recycling entry points in tenure mode (double redeems seen by the hook) and with poisoning on polluted "
+             "pools, every outcome compared with the same call alone with recycling off.",
+        note=TB + "No axioms. That the Go validators are a disciplined client is established per sampled history (hook) and by the "
+             "protocol model, not by a line-by-line proof; the GC emptying sync.Pool is covered by the arbitrary borrow oracle.",
+        tech="Rocq proof (pool non-interference by simulation; redeem protocol by induction on trees; regenerated static lemma) + instrumented history correspondence",
+        ref="DESIGN.md 5/C04"),
+    "C11": dict(
+        text="Coq theorem over the redeem protocol with Go's unwinding semantics: for every validator tree and every abort point k (the "
+             "k-th invocation of caller-supplied code panics, deferred functions run innermost first) every validator object is "
+             "redeemed exactly once; with the generic pool theorem, later validations are unaffected. Tie: fault enumeration - for "
+             "every workload and every k up to the measured number of checker invocations, a panic is injected, recovered, and "
+             "follow-up validations are compared with their fresh-process outcomes, in tenure mode and with poisoning.",
+        note=TB + "No axioms. The protocol model abstracts each validator to its slots and deferred redeems (schema.go, validator.go, "
+             "schema_props.go); results may leak on an abort (allowed), validators may not be pooled twice.",
+        tech="Rocq proof (redeem-exactly-once under abort, by mutual induction on validator trees) + fault enumeration over all abort points",
+        ref="DESIGN.md 5/C11"),
     "C13": dict(
         text="Coq theorems (Numeric.v): for every numops implementation exact on the values involved, MaximumNativeType / "
              "MinimumNativeType (as transcribed) report an error exactly when the carried rational exceeds / reaches the bound, for all "
